@@ -1309,6 +1309,48 @@ func checkLocalsBeforeGlobals(w *World, r *Report) {
 					found = true
 				}
 			})
+			// the globals lookup sits in a helper: at every call site of the helper the local
+			// lookup of the name handed over comes first
+			if !found {
+				if p, ok := unspill(gl.Index).(*ssa.Parameter); ok {
+					pi := -1
+					for i, q := range fn.Params {
+						if q == p {
+							pi = i
+						}
+					}
+					edges := realInEdges(fn)
+					all := len(edges) > 0 && pi >= 0
+					for _, e := range edges {
+						if e.Site == nil || e.Site.Common().StaticCallee() != fn || pi >= len(e.Site.Common().Args) {
+							all = false
+							continue
+						}
+						arg := e.Site.Common().Args[pi]
+						okSite := false
+						instrsOf(e.Caller.Func, func(in2 ssa.Instruction) {
+							ll, ok := in2.(*ssa.Lookup)
+							if !ok || okSite {
+								return
+							}
+							if _, ok := fieldLoad(ll.X, "RenderContext", "context"); !ok {
+								return
+							}
+							if !sameValue(unspill(ll.Index), unspill(arg)) {
+								return
+							}
+							sb := e.Site.Block()
+							if ll.Block() == sb && instrIndex(ll) < instrIndex(e.Site) || ll.Block() != sb && ll.Block().Dominates(sb) {
+								okSite = true
+							}
+						})
+						if !okSite {
+							all = false
+						}
+					}
+					found = all
+				}
+			}
 			construct := "the context's own variables are asked before the globals"
 			if found {
 				r.ok("R11.13", ssaName(fn), construct, w.posOf(gl.Pos()), "a lookup of the same name in RenderContext.context dominates the globals lookup", true)
